@@ -213,7 +213,7 @@ def shrink_candidates(scn):
                 yield s
 
 
-RUNS = {"quick": 1200, "thorough": 50000}
+RUNS = {"quick": 1200, "thorough": 15000}
 RULE = ("one evaluation = one seeded world executed twice with the same seeded op list (partition, "
         "interleaving, faulted updates and retries): once as is, once either seen from a frame "
         "rotated by a seeded proper rotation Q (L' = Q L(Q^T x') Q^T, x' = Q x, A' = A Q^T, "
